@@ -1,1 +1,455 @@
-/-! # C06 — property theorems (not built yet) -/
+import RsMatterVerif.Lemmas.Expand
+/-!
+# C06 — every Interaction Model operation is mediated by the access check
+
+`Expand.expand` is the transliterated `PathExpander` (`Model/Expand.lean`, first half) drained with
+`fuel` calls of `next`; all statements hold for every `fuel`, i.e. for every prefix of the
+expansion. `Expand.expected` is the specification written from the property text.
+The access-control state (`ctx.fabrics`), the requester and the node are fixed during one
+expansion (see `docs/C06.md` for the one deliberate exception in the code, the last-authorised
+cache across an ACL rewrite).
+-/
+namespace C06
+open Acl Expand
+
+
+/-- the access declaration the check looks up for a leaf id -/
+def attrPerms (c : Cluster) (id : Nat) : Nat := ((c.attrs.find? (fun a => a.id == id)).map (·.access)).getD 0
+def cmdPerms (c : Cluster) (id : Nat) : Nat := ((c.cmds.find? (fun a => a.id == id)).map (·.access)).getD 0
+
+/-- **Every expanded item is mediated.** Whatever the request (any list of concrete and wildcard
+paths, repeats, any order), every item the expander hands to a handler exists on the node (an
+enabled leaf of a cluster of an endpoint), matches one of the requested paths, is reachable by the
+requester (group membership), passed the caller's filter and passed `check_*_access` under the
+request's access-control state. -/
+theorem expanded_items_authorised (ctx : Ctx) (op : Operation) (node : Node) (paths : List Path)
+    (fuel : Nat) (ep cl lf : Nat) (w a : Bool)
+    (h : Out.item ep cl lf w a ∈ expand ctx op node paths fuel) :
+    Authorised ctx op node (ep, cl, lf) ∧ ∃ p ∈ paths, PathMatches p ep cl lf ∧ w = isWildcard p :=
+  run_sound fuel _ (inv_init ctx op node paths) _ h
+
+/-- **A wildcard silently omits.** No status is ever produced for a wildcard path the operation
+supports (reads: any wildcard; writes / invokes: the endpoint wildcard). -/
+theorem wildcard_never_errors (ctx : Ctx) (op : Operation) (node : Node) (paths : List Path)
+    (fuel : Nat) (p : Path) (s : Status) (h : Out.status p s ∈ expand ctx op node paths fuel) :
+    p ∈ paths ∧ ¬ SupportedWildcard op p :=
+  run_sound fuel _ (inv_init ctx op node paths) _ h
+
+/-- **Denied means no effect.** If no element matching the (any) path is authorised, no item comes
+out — the invoker / writer only ever act on items. -/
+theorem denied_has_no_effect (ctx : Ctx) (op : Operation) (node : Node) (paths : List Path) (fuel : Nat)
+    (hden : ∀ ep cl lf, (∃ p ∈ paths, PathMatches p ep cl lf) → ¬ Authorised ctx op node (ep, cl, lf)) :
+    ∀ o ∈ expand ctx op node paths fuel, ∃ p s, o = .status p s := by
+  intro o ho
+  cases o with
+  | status p s => exact ⟨p, s, rfl⟩
+  | item ep cl lf w a =>
+    obtain ⟨ha, p, hp, hm, _⟩ := expanded_items_authorised ctx op node paths fuel ep cl lf w a ho
+    exact absurd ha (hden ep cl lf ⟨p, hp, hm⟩)
+
+/-- a concrete path is answered at most once (one item or one status) -/
+theorem concrete_at_most_one (ctx : Ctx) (op : Operation) (node : Node) (p : Path) (fuel : Nat)
+    (hc : isWildcard p = false) : (expand ctx op node [p] fuel).length ≤ 1 := by
+  unfold expand
+  cases fuel with
+  | zero => simp [run]
+  | succ n =>
+    unfold run
+    simp only [next]
+    unfold nextFrom
+    cases hn : nextForPath ctx op node p {} none with
+    | yield ep cl lf arr cur' =>
+      simp only [hc, Bool.not_false, if_true, List.length_cons]
+      cases n with
+      | zero => simp [run]
+      | succ m => simp [run, next]
+    | done => simp
+    | err s =>
+      simp only [List.length_cons]
+      cases n with
+      | zero => simp [run]
+      | succ m => simp [run, next]
+
+/-! ## timed-only and fabric-scoped marks -/
+
+theorem checkAttrAccess_write_timed {ctx : Ctx} {c : Cluster} {ep : Nat} {dts : List Nat} {id : Nat}
+    (h : checkAttrAccess ctx c ep dts true id = .ok ())
+    (ht : contains (attrPerms c id) Consts.accTimedOnly = true) : ctx.timed = true := by
+  unfold checkAttrAccess at h
+  simp only [Bool.true_and] at h
+  by_cases hh : (!ctx.timed && contains (attrPerms c id) Consts.accTimedOnly) = true
+  · unfold attrPerms at hh; rw [if_pos hh] at h; cases h
+  · rw [ht] at hh; simpa using hh
+
+theorem checkCmdAccess_marks {ctx : Ctx} {c : Cluster} {ep : Nat} {dts : List Nat} {id : Nat}
+    (h : checkCmdAccess ctx c ep dts id = .ok ()) :
+    (contains (cmdPerms c id) Consts.accTimedOnly = true → ctx.timed = true) ∧
+    (contains (cmdPerms c id) Consts.accFabScoped = true → ctx.accessor.fabIdx ≠ 0) := by
+  unfold checkCmdAccess at h
+  by_cases h1 : (!ctx.timed && contains (cmdPerms c id) Consts.accTimedOnly) = true
+  · unfold cmdPerms at h1; rw [if_pos h1] at h; cases h
+  · unfold cmdPerms at h1; rw [if_neg h1] at h
+    by_cases h2 : (contains (cmdPerms c id) Consts.accFabScoped && ctx.accessor.fabIdx == 0) = true
+    · unfold cmdPerms at h2; rw [if_pos h2] at h; cases h
+    · constructor
+      · intro ht; unfold cmdPerms at ht; rw [ht] at h1; simpa using h1
+      · intro hf; rw [hf] at h2; simpa using h2
+
+/-- **Timed-only elements act only inside a timed interaction.** An item of a write / invoke
+expansion whose declaration is marked timed-only implies the request carried the timed flag. -/
+theorem timed_only_needs_timed (ctx : Ctx) (op : Operation) (node : Node) (paths : List Path)
+    (fuel : Nat) (ep cl lf : Nat) (w a : Bool) (hop : op ≠ .read)
+    (h : Out.item ep cl lf w a ∈ expand ctx op node paths fuel) :
+    ∃ e ∈ node, e.id = ep ∧ ∃ c ∈ e.clusters, c.id = cl ∧
+      (contains (if op = .invoke then cmdPerms c lf else attrPerms c lf) Consts.accTimedOnly = true →
+        ctx.timed = true) := by
+  obtain ⟨⟨e, he, hi, c, hc, hci, l, hl, hli, _, _, chk⟩, _⟩ :=
+    expanded_items_authorised ctx op node paths fuel ep cl lf w a h
+  refine ⟨e, he, hi, c, hc, hci, ?_⟩
+  cases op with
+  | read => exact absurd rfl hop
+  | write => simp only [reduceCtorEq, if_false]; exact checkAttrAccess_write_timed chk
+  | invoke => simp only [if_true]; exact (checkCmdAccess_marks chk).1
+
+/-- **Fabric-scoped commands are refused to requesters without a fabric.** -/
+theorem fabric_scoped_needs_fabric (ctx : Ctx) (node : Node) (paths : List Path)
+    (fuel : Nat) (ep cl lf : Nat) (w a : Bool)
+    (h : Out.item ep cl lf w a ∈ expand ctx .invoke node paths fuel) :
+    ∃ e ∈ node, e.id = ep ∧ ∃ c ∈ e.clusters, c.id = cl ∧
+      (contains (cmdPerms c lf) Consts.accFabScoped = true → ctx.accessor.fabIdx ≠ 0) := by
+  obtain ⟨⟨e, he, hi, c, hc, hci, l, hl, hli, _, _, chk⟩, _⟩ :=
+    expanded_items_authorised ctx .invoke node paths fuel ep cl lf w a h
+  exact ⟨e, he, hi, c, hc, hci, (checkCmdAccess_marks chk).2⟩
+
+/-- **The timed window must be live.** `timed_out` lets a request carrying the timed flag through
+only if the exchange started with a `TimedRequest` whose window has not closed; without the flag
+only if there was no `TimedRequest`. -/
+theorem timed_gate_live (flag : Bool) (inst : Option Nat) (now : Nat)
+    (h : timedGate flag inst now = .proceed) :
+    (flag = true → ∃ t, inst = some t ∧ now ≤ t) ∧ (flag = false → inst = none) := by
+  unfold timedGate at h
+  cases inst with
+  | none => cases flag <;> simp_all
+  | some t =>
+    cases flag with
+    | false => simp at h
+    | true =>
+      simp only [Option.isSome_some, bne_self_eq_false, Bool.false_eq_true, if_false, Option.map_some,
+        Option.getD_some, decide_eq_true_eq] at h
+      refine ⟨fun _ => ⟨t, rfl, ?_⟩, fun hh => by cases hh⟩
+      by_cases hgt : now > t
+      · simp [hgt] at h
+      · omega
+
+/-! ## the model's access check is the specification's `permitted` -/
+
+theorem and_single_bit (a i : Nat) : a &&& 2 ^ i = 2 ^ i ∨ a &&& 2 ^ i = 0 := by
+  cases h : a.testBit i
+  · right
+    apply Nat.eq_of_testBit_eq
+    intro j
+    simp only [Nat.testBit_and, Nat.testBit_two_pow, Nat.zero_testBit]
+    by_cases hij : i = j
+    · subst hij; simp [h]
+    · simp [hij]
+  · left
+    apply Nat.eq_of_testBit_eq
+    intro j
+    simp only [Nat.testBit_and, Nat.testBit_two_pow]
+    by_cases hij : i = j
+    · subst hij; simp [h]
+    · simp [hij]
+
+theorem contains_eq_declHas (a i : Nat) : contains a (2 ^ i) = declHas a (2 ^ i) := by
+  unfold contains declHas
+  have hpos : 2 ^ i ≠ 0 := Nat.pos_iff_ne_zero.mp (Nat.two_pow_pos i)
+  rcases and_single_bit a i with h | h
+  · rw [h]; simp
+  · rw [h]; simp [hpos.symm]
+
+theorem contains_read (a : Nat) : contains a READ = declHas a Consts.accRead := contains_eq_declHas a 4
+theorem contains_write (a : Nat) : contains a WRITE = declHas a Consts.accWrite := contains_eq_declHas a 5
+theorem contains_timed (a : Nat) : contains a Consts.accTimedOnly = declHas a Consts.accTimedOnly :=
+  contains_eq_declHas a 8
+theorem contains_fabScoped (a : Nat) : contains a Consts.accFabScoped = declHas a Consts.accFabScoped :=
+  contains_eq_declHas a 6
+
+theorem find_unique {ls : List Leaf} {l : Leaf} (hl : l ∈ ls) (hnd : (ls.map (·.id)).Nodup) :
+    ls.find? (fun a => a.id == l.id) = some l := by
+  induction ls with
+  | nil => cases hl
+  | cons x xs ih =>
+    simp only [List.map_cons, List.nodup_cons, List.mem_map, not_exists, not_and] at hnd
+    rcases List.mem_cons.mp hl with rfl | hl'
+    · simp
+    · have : x.id ≠ l.id := fun h => hnd.1 l hl' h.symm
+      rw [List.find?_cons_of_neg (by simpa using this)]
+      exact ih hl' hnd.2
+
+/-- under the hypotheses of C05, the code's decision for a request equals the specification's -/
+theorem allow_eq_grantedB (fabrics : List Fabric) (req : AccessReq)
+    (hwf : WF fabrics) (hc : CanonicalPrivs fabrics) (hop : ReadOrWrite req) :
+    allow fabrics req = grantedB fabrics req := by
+  have h1 := C05.allow_iff_granted fabrics req hwf hc hop
+  have h2 := C05.grantedB_iff fabrics req
+  cases ha : allow fabrics req <;> cases hg : grantedB fabrics req <;> simp_all
+
+/-- **The access check of the code is the `permitted` of the specification** (through C05's
+`allow_iff_granted`), for every existing leaf of a well-formed cluster table. -/
+theorem checkAccess_eq_permitted (ctx : Ctx) (op : Operation) (e : Endpoint) (c : Cluster) (l : Leaf)
+    (hwf : WF ctx.fabrics) (hc : CanonicalPrivs ctx.fabrics)
+    (hl : l ∈ (if op = .invoke then c.cmds else c.attrs))
+    (hnd : ((if op = .invoke then c.cmds else c.attrs).map (·.id)).Nodup) :
+    checkAccess ctx op e c l.id = (match permitted ctx op e c l with
+      | none => .ok ()
+      | some s => .error s) := by
+  cases op with
+  | read =>
+    simp only [reduceCtorEq, if_false] at hl hnd
+    unfold checkAccess checkAttrAccess permitted
+    simp only [find_unique hl hnd, Option.map_some, Option.getD_some, Bool.false_and, Bool.false_eq_true,
+      if_false, contains_read, beq_self_eq_true, if_true]
+    rw [allow_eq_grantedB _ _ hwf hc ⟨.read, rfl⟩]
+    cases declHas l.access Consts.accRead <;>
+      cases grantedB ctx.fabrics (mkReq ctx e.id c.id l.id e.deviceTypes READ l.access) <;> simp
+  | write =>
+    simp only [reduceCtorEq, if_false] at hl hnd
+    unfold checkAccess checkAttrAccess permitted
+    simp only [find_unique hl hnd, Option.map_some, Option.getD_some, Bool.true_and, if_true,
+      contains_write, contains_timed, reduceCtorEq, beq_iff_eq, if_false]
+    rw [allow_eq_grantedB _ _ hwf hc ⟨.write, rfl⟩]
+    cases ctx.timed <;> cases declHas l.access Consts.accTimedOnly <;>
+      cases declHas l.access Consts.accWrite <;>
+      cases grantedB ctx.fabrics (mkReq ctx e.id c.id l.id e.deviceTypes WRITE l.access) <;> simp
+  | invoke =>
+    simp only [if_true] at hl hnd
+    unfold checkAccess checkCmdAccess permitted
+    simp only [find_unique hl hnd, Option.map_some, Option.getD_some, contains_timed, contains_fabScoped,
+      reduceCtorEq, beq_iff_eq, if_false]
+    rw [allow_eq_grantedB _ _ hwf hc ⟨.write, rfl⟩]
+    cases ctx.timed <;> cases declHas l.access Consts.accTimedOnly <;>
+      cases declHas l.access Consts.accFabScoped <;>
+      cases hf : (ctx.accessor.fabIdx == 0) <;>
+      cases grantedB ctx.fabrics (mkReq ctx e.id c.id l.id e.deviceTypes WRITE l.access) <;> simp
+
+theorem nodeWF_tables {node : Node} (h : nodeWF node = true) {e : Endpoint} (he : e ∈ node)
+    {c : Cluster} (hc : c ∈ e.clusters) :
+    (c.attrs.map (·.id)).Nodup ∧ (c.cmds.map (·.id)).Nodup := by
+  unfold nodeWF at h
+  simp only [Bool.and_eq_true, List.all_eq_true, decide_eq_true_iff] at h
+  exact (h.2 e he).2 c hc
+
+/-- **Every expanded item is permitted by the specification.** On a well-formed node and ACL state,
+each item of the expansion is an enabled leaf of the node that the requester can reach and for which
+the specification's `permitted` (operation offered, timed / fabric-scoped marks honoured, access
+granted by the *specification* of C05) holds. -/
+theorem expanded_items_permitted (ctx : Ctx) (op : Operation) (node : Node) (paths : List Path)
+    (fuel : Nat) (ep cl lf : Nat) (w a : Bool)
+    (hn : nodeWF node = true) (hwf : WF ctx.fabrics) (hc : CanonicalPrivs ctx.fabrics)
+    (h : Out.item ep cl lf w a ∈ expand ctx op node paths fuel) :
+    ∃ e ∈ node, e.id = ep ∧ ∃ c ∈ e.clusters, c.id = cl ∧ ∃ l ∈ specLeaves c op, l.id = lf ∧
+      reachable ctx e = true ∧ ctx.filter ep cl lf = true ∧ permitted ctx op e c l = none ∧
+      ∃ p ∈ paths, PathMatches p ep cl lf := by
+  obtain ⟨⟨e, he, hi, c, hcm, hci, l, hl, hli, acc, fil, chk⟩, p, hp, hm, _⟩ :=
+    expanded_items_authorised ctx op node paths fuel ep cl lf w a h
+  simp only at hi hci hli acc fil chk
+  have hl' : l ∈ specLeaves c op := by
+    unfold specLeaves; unfold Cluster.leaves at hl; exact hl
+  refine ⟨e, he, hi, c, hcm, hci, l, hl', hli, ?_, fil, ?_, p, hp, hm⟩
+  · unfold reachable
+    rw [← hi] at acc
+    have := (C05.group_reaches_only_member_endpoints ctx.fabrics ctx.accessor e.id hwf).mp acc
+    exact (C05.reachesB_iff _ _ _).mpr this
+  · obtain ⟨na, nc⟩ := nodeWF_tables hn he hcm
+    have hmem : l ∈ (if op = .invoke then c.cmds else c.attrs) := by
+      unfold Cluster.leaves at hl
+      cases op <;> simp_all
+    have hnd : ((if op = .invoke then c.cmds else c.attrs).map (·.id)).Nodup := by
+      cases op <;> simp_all
+    have := checkAccess_eq_permitted ctx op e c l hwf hc hmem hnd
+    rw [hli] at this
+    rw [this] at chk
+    cases hpm : permitted ctx op e c l with
+    | none => rfl
+    | some s => rw [hpm] at chk; cases chk
+
+/-! ## concrete paths: equality with the specification -/
+
+/-- the answer list of a concrete path `p` for an outcome of `next_for_path` -/
+def outs (p : Path) : PathOutcome → List Out
+  | .item e c l a => [.item e c l false a]
+  | .done => []
+  | .err s => [.status p s]
+
+theorem expand_single_concrete (ctx : Ctx) (op : Operation) (node : Node) (p : Path) (fuel : Nat)
+    (hw : isWildcard p = false) :
+    expand ctx op node [p] (fuel + 2) = outs p (nextForPath ctx op node p {} none).outcome := by
+  unfold expand
+  unfold run
+  simp only [next]
+  unfold nextFrom
+  cases hn : nextForPath ctx op node p {} none with
+  | yield ep cl lf arr cur' =>
+    simp only [hw, Bool.not_false, if_true, PathRes.outcome, outs]
+    unfold run
+    simp [next]
+  | done => simp [PathRes.outcome, outs]
+  | err s =>
+    simp only [PathRes.outcome, outs]
+    unfold run
+    simp [next]
+
+theorem isEndpointAccessible_eq_reachesB (fabrics : List Fabric) (a : Accessor) (ep : Nat) (hwf : WF fabrics) :
+    isEndpointAccessible fabrics a ep = reachesB fabrics a ep := by
+  have h1 := C05.group_reaches_only_member_endpoints fabrics a ep hwf
+  have h2 := C05.reachesB_iff fabrics a ep
+  cases h : isEndpointAccessible fabrics a ep <;> cases h' : reachesB fabrics a ep <;> simp_all
+
+theorem find_unique_filter {ls : List Leaf} {l : Leaf} (hl : l ∈ ls.filter (·.enabled))
+    (hnd : (ls.map (·.id)).Nodup) :
+    (ls.filter (·.enabled)).find? (fun a => a.id == l.id) = some l := by
+  apply find_unique hl
+  exact List.Nodup.sublist (List.Sublist.map _ List.filter_sublist) hnd
+
+/-- **A request consisting of one concrete path is answered exactly as the specification says**:
+the element, nothing (rejected by the caller's filter), or the single status of the first failing
+level — in particular a denied concrete path yields exactly its status and no item. -/
+theorem concrete_path_expected (ctx : Ctx) (op : Operation) (node : Node) (p : Path) (fuel : Nat)
+    {ep cl lf : Nat} (hep : p.endpoint = some ep) (hcl : p.cluster = some cl) (hl : p.leaf = some lf)
+    (hn : nodeWF node = true) (hwf : WF ctx.fabrics) (hc : CanonicalPrivs ctx.fabrics) :
+    expand ctx op node [p] (fuel + 2) = expectedItem ctx op node p := by
+  have hw : isWildcard p = false := by simp [isWildcard, hep, hcl, hl]
+  rw [expand_single_concrete ctx op node p fuel hw, nextForPath_concrete ctx op node p none hep hcl hl]
+  unfold expectedItem
+  simp only [hcl, hl, hep, Option.isNone_some, Bool.and_false, Bool.false_eq_true, if_false]
+  unfold concreteOutcome expectedConcrete
+  have hpred : (fun (e : Endpoint) => ep == e.id && isEndpointAccessible ctx.fabrics ctx.accessor e.id)
+      = (fun e => e.id == ep && reachable ctx e) := by
+    funext e
+    unfold reachable
+    rw [isEndpointAccessible_eq_reachesB _ _ _ hwf, Bool.beq_comm]
+  rw [hpred]
+  cases hfe : node.find? (fun e => e.id == ep && reachable ctx e) with
+  | none => simp [outs]
+  | some e =>
+    have he : e ∈ node := List.mem_of_find?_eq_some hfe
+    simp only
+    cases hfc : e.clusters.find? (fun c => c.id == cl) with
+    | none => simp [outs]
+    | some c =>
+      have hcm : c ∈ e.clusters := List.mem_of_find?_eq_some hfc
+      obtain ⟨na, nc⟩ := nodeWF_tables hn he hcm
+      simp only
+      unfold leafOutcome
+      have hsl : c.leaves (op == .invoke) = specLeaves c op := rfl
+      rw [hsl]
+      cases hfl : (specLeaves c op).find? (fun l => l.id == lf) with
+      | none => cases op <;> simp [outs]
+      | some l =>
+        have hlm : l ∈ specLeaves c op := List.mem_of_find?_eq_some hfl
+        have hlid : l.id = lf := by have := List.find?_some hfl; simpa using this
+        have hmem : l ∈ (if op = .invoke then c.cmds else c.attrs) := by
+          unfold specLeaves at hlm
+          cases op <;> simp_all
+        have hnd : ((if op = .invoke then c.cmds else c.attrs).map (·.id)).Nodup := by
+          cases op <;> simp_all
+        have hchk := checkAccess_eq_permitted ctx op e c l hwf hc hmem hnd
+        simp only
+        unfold leafCheck
+        by_cases hfil : ctx.filter e.id c.id l.id = true
+        · have harr : arrayFlag op c l = (op != .invoke && l.array) := by
+            unfold arrayFlag
+            cases op with
+            | invoke => simp
+            | read =>
+              have : l ∈ c.attrs.filter (·.enabled) := by unfold specLeaves at hlm; simpa using hlm
+              simp [Cluster.leaves, find_unique_filter this na]
+              rfl
+            | write =>
+              have : l ∈ c.attrs.filter (·.enabled) := by unfold specLeaves at hlm; simpa using hlm
+              simp [Cluster.leaves, find_unique_filter this na]
+              rfl
+          simp only [hfil, if_true, Bool.not_true, Bool.false_eq_true, if_false, reduceCtorEq, beq_iff_eq]
+          rw [hchk]
+          cases hp : permitted ctx op e c l with
+          | none => simp [outs, harr, Except.map]
+          | some s => simp [outs, Except.map]
+        · simp [hfil, outs]
+
+/-- The full statement of C06 for the expansion: the answers are exactly the specification's list.
+Evaluated by the oracle on every generated request (no counterexample); the soundness half is the
+theorems above, the completeness half (every permitted element is answered, a denied concrete path
+gets exactly its status) is not proved here. -/
+def C06_full : Prop :=
+  ∀ (ctx : Ctx) (op : Operation) (node : Node) (paths : List Path),
+    nodeWF node = true → WF ctx.fabrics → CanonicalPrivs ctx.fabrics →
+    ∃ fuel, ∀ fuel' ≥ fuel, expand ctx op node paths fuel' = expected ctx op node paths
+
+/-! ## non-vacuity -/
+
+/-- endpoint 0: cluster 31 with attribute 0 (`RWVA`) and command 0 (`WA`, fabric-scoped);
+endpoint 1: cluster 6 with attributes 0 (`RV`), 1 (`RWVM`, timed-only) and command 0 (`WO`, timed-only) -/
+def demoNode : Node :=
+  [ { id := 0, deviceTypes := [22], clusters :=
+      [ { id := 31, attrs := [ { id := 0, access := 57, array := true, enabled := true } ],
+          cmds := [ { id := 0, access := 104, array := false, enabled := true } ] } ] },
+    { id := 1, deviceTypes := [256], clusters :=
+      [ { id := 6, attrs := [ { id := 0, access := 17, array := false, enabled := true },
+                              { id := 1, access := 309, array := false, enabled := true } ],
+          cmds := [ { id := 0, access := 302, array := false, enabled := true } ] } ] } ]
+
+/-- fabric 1: node 5 may operate endpoint 1 -/
+def demoAcl : List Fabric :=
+  [ { fabIdx := 1,
+      acl := [ { privilege := PRIV_MANAGE, authMode := .case, subjects := some [5],
+                 targets := some [ { endpoint := some 1, cluster := none, deviceType := none } ],
+                 fabIdx := some 1 } ],
+      groups := [] } ]
+
+def demoCtx (timed : Bool) : Ctx :=
+  { fabrics := demoAcl, accessor := { fabIdx := 1, auxAclEnabled := false, subjects := [5, 0, 0, 0], authMode := some .case },
+    timed := timed, filter := fun _ _ _ => true }
+
+def wild : Path := { endpoint := none, cluster := none, leaf := none }
+def conc (e c l : Nat) : Path := { endpoint := some e, cluster := some c, leaf := some l }
+
+/-- wildcard read: exactly the two permitted attributes of endpoint 1, nothing about endpoint 0 -/
+example : expand (demoCtx false) .read demoNode [wild] 10 =
+    [.item 1 6 0 true false, .item 1 6 1 true false] := by decide
+/-- concrete read of the Access Control attribute: one status, no item -/
+example : expand (demoCtx false) .read demoNode [conc 0 31 0] 10 =
+    [.status (conc 0 31 0) .unsupportedAccess] := by decide
+/-- timed-only attribute: refused without the timed flag, written with it -/
+example : expand (demoCtx false) .write demoNode [conc 1 6 1] 10 =
+    [.status (conc 1 6 1) .needsTimedInteraction] := by decide
+example : expand (demoCtx true) .write demoNode [conc 1 6 1] 10 = [.item 1 6 1 false false] := by decide
+/-- absent cluster / attribute / endpoint -/
+example : expand (demoCtx false) .read demoNode [conc 1 8 0, conc 1 6 9, conc 5 6 0] 10 =
+    [.status (conc 1 8 0) .unsupportedCluster, .status (conc 1 6 9) .unsupportedAttribute,
+     .status (conc 5 6 0) .unsupportedEndpoint] := by decide
+/-- the specification gives the same lists -/
+example : expected (demoCtx false) .read demoNode [wild, conc 0 31 0] =
+    expand (demoCtx false) .read demoNode [wild, conc 0 31 0] 10 := by decide
+/-- hypotheses of `expanded_items_permitted` are satisfiable -/
+example : nodeWF demoNode = true ∧ WF demoAcl := ⟨by decide, ⟨by decide, by decide, by decide⟩⟩
+/-- fabric-scoped command over PASE without a fabric: refused -/
+def paseCtx : Ctx :=
+  { fabrics := demoAcl, accessor := { fabIdx := 0, auxAclEnabled := false, subjects := [1, 0, 0, 0], authMode := some .pase },
+    timed := true, filter := fun _ _ _ => true }
+example : expand paseCtx .invoke demoNode [conc 0 31 0] 10 = [.status (conc 0 31 0) .unsupportedAccess] := by decide
+/-- the timed gate: live window passes, closed window and mismatches do not -/
+example : timedGate true (some 100) 100 = .proceed ∧ timedGate true (some 100) 101 = .timeout ∧
+    timedGate true none 5 = .timedRequestMismatch ∧ timedGate false (some 100) 5 = .timedRequestMismatch ∧
+    timedGate false none 5 = .proceed := by decide
+
+/-- `concrete_path_expected` instantiated: a denied concrete path yields exactly its status -/
+example : expand (demoCtx false) .read demoNode [conc 0 31 0] 2 = expectedItem (demoCtx false) .read demoNode (conc 0 31 0) :=
+  concrete_path_expected (demoCtx false) .read demoNode (conc 0 31 0) 0 rfl rfl rfl (by decide)
+    ⟨by decide, by decide, by decide⟩
+    (by intro f hf e he
+        simp only [demoCtx, demoAcl, List.mem_cons, List.not_mem_nil, or_false] at hf
+        subst hf
+        simp only [List.mem_cons, List.not_mem_nil, or_false] at he
+        subst he; exact ⟨.manage, rfl⟩)
+
+end C06
